@@ -83,6 +83,13 @@ def parse(r):
         pass
     if m:
         r.states = int(m.group(1)); r.distinct = int(m.group(2))
+    if not r.states:
+        # -simulate mode: "Progress: N states checked, M traces generated" / "The number of states generated: N"
+        ms = None
+        for ms in re.finditer(r"(?:Progress: |The number of states generated: )(\d+)", out):
+            pass
+        if ms:
+            r.states = int(ms.group(1)); r.distinct = r.distinct or 0
     m = re.search(r"The depth of the complete state graph search is (\d+)", out)
     if m:
         r.depth = int(m.group(1))
